@@ -309,6 +309,9 @@ def c14(run):
     validate_trace(run, "CelOpTrace", path, sample_key=op_sample,
                    nontrivial=lambda c: bool(c["a"].get("e") or c["b"].get("e")),
                    what="map / list / string operation disagrees with the specification (all query forms are defined from one HasKey)")
+    # whole programs: + with shared / temporary operands, chained and nested; function-named keys; random collection-heavy programs
+    path = drive_eval(run, "c14", run.q(600, 20000))
+    validate_trace(run, "CelEvalTrace", path, nontrivial=lambda c: json.dumps(c.get("ast")).count('"k"') >= 3)
 
 
 # ----------------------------------------------------------------------------------------------
